@@ -383,7 +383,7 @@ func (ex *Exec) evalIdent(st *State, name string, e *env) Val {
 	}
 	if strings.HasPrefix(name, "g_") {
 		if s, ok := ex.w.ghostVars[name]; ok {
-			return Val{K: KTerm, T: st.region("G!"+name, s), Meta: ghostOfSort(s)}
+			return Val{K: KTerm, T: st.region("G!"+name, s), Meta: ghostOfSort(s), Typ: sortType(s)}
 		}
 	}
 	// locals by source name: innermost frame first
@@ -730,6 +730,20 @@ func (ex *Exec) evalCall(st *State, n *node, e *env) Val {
 		id := sel(st.region(boxRegion(rm, "#id"), arr("Int", "Int")), p.T)
 		m := sel(st.region("G!jsonof", arr("Int", "Int")), id)
 		return term(m, types.NewMap(tString, tString))
+	case "inre":
+		// inre(s, "pattern"): full match of s against a pattern of the supported fragment
+		if len(args) != 2 || args[1].op != "lit-str" {
+			specFail("inre needs a string literal pattern")
+		}
+		ri := newRegexInfo("spec", args[1].name, 0)
+		if !ri.subsetOK {
+			specFail("inre: pattern outside the fragment: %s", ri.subsetWhy)
+		}
+		var parts []string
+		for _, it := range ri.items {
+			parts = append(parts, it.smtRe())
+		}
+		return term("(str.in_re "+arg(0).T+" "+reCat(parts...)+")", tBool)
 	case "isdigits":
 		return term("(str.in_re "+arg(0).T+" (re.+ (re.range \"0\" \"9\")))", tBool)
 	case "atoi":
@@ -749,6 +763,16 @@ func (ex *Exec) evalCall(st *State, n *node, e *env) Val {
 			specFail("typeid: unknown type %s", args[0].name)
 		}
 		return term(strconv.Itoa(id), tInt)
+	case "cast":
+		// cast(x, "*pkg.T"): view an interface value holding a pointer as that pointer
+		if len(args) != 2 || args[1].op != "lit-str" {
+			specFail("cast needs a type name literal")
+		}
+		t := ex.w.typeByName(args[1].name)
+		if t == nil {
+			specFail("cast: unknown type %s", args[1].name)
+		}
+		return term(arg(0).T, t)
 	case "unbox_string":
 		return term(sel(st.region("I!String", arr("Int", "String")), arg(0).T), tString)
 	case "unbox_int":
